@@ -202,11 +202,14 @@ EndCall(rel) ==
             ELSE UNCHANGED <<mem, held, bad>>
   /\ st' = Idle
   /\ UNCHANGED <<seg, cfg, fx>>
-\* between calls the caller may release a batch it kept from an earlier call
-ReleaseHeld(o) ==
-  /\ st.pc = "idle" /\ o \in held
-  /\ mem' = Free(mem, o) /\ held' = held \ {o}
-  /\ bad' = bad \cup (IF FreeOwn(mem, o, "cli") THEN {} ELSE {"badfree"})
+\* between calls the caller may release a batch it kept from an earlier call: the k-th held region in offset order
+\* (a parameter from a constant range, so that TLC labels the step with it)
+Nth(S, k) == CHOOSE x \in S : Cardinality({y \in S : y < x}) = k - 1
+ReleaseHeld(k) ==
+  /\ st.pc = "idle" /\ k \in 1..Cardinality(held)
+  /\ LET o == Nth(held, k) IN
+     /\ mem' = Free(mem, o) /\ held' = held \ {o}
+     /\ bad' = bad \cup (IF FreeOwn(mem, o, "cli") THEN {} ELSE {"badfree"})
   /\ UNCHANGED <<seg, cfg, fx, st>>
 
 \* between calls, with nothing held, the client goes on with a fresh (empty) segment on the same connection
@@ -222,7 +225,7 @@ Next == \/ \E rq \in ReqC \cup {"-"}, res \in ResC, out \in {"ok", "err", "cb", 
         \/ \E k \in {"p", "x"}, ci \in InP \cup InD \cup {"-"}, co \in OutP \cup OutD \cup OutZ,
               fail \in {"none", "finish", "raise", "schema", "init", "cb"}, nout \in 0..(MaxTicks - 1) : BeginStream(k, ci, co, fail, nout)
         \/ CInput \/ SProcess \/ (\E keep \in BOOLEAN : CData(keep)) \/ CDataCb \/ (\E how \in {"close", "cancel"} : CClose(how))
-        \/ SEnd \/ (\E rel \in BOOLEAN : EndCall(rel)) \/ (\E o \in held : ReleaseHeld(o))
+        \/ SEnd \/ (\E rel \in BOOLEAN : EndCall(rel)) \/ (\E k \in 1..MaxHeld : ReleaseHeld(k))
 Spec == Init /\ [][Next]_vars
 
 \* ------------------------------------------------------------------------------ property clauses (C29)
